@@ -187,6 +187,20 @@ def run_prop(chk: Check, which: str) -> None:
             chk.sample({"episode": ep.to_json(), "writes": [(round(t, 6), f[:40]) for t, f in res.writes][:8],
                         "outcomes": {i: (round(o[0], 6), o[1], o[2][:50]) for i, o in res.outcomes.items()}, "final": res.final_state})
     if which == "C07":
+        # a write that fails with a low-level exception (a dying port), at the first transmission or at a re-transmission
+        for cmd in (0, 4, 5, 9):
+            for kind in ("oserror", "attr"):
+                for at in (1, 2):
+                    for mode in (None, False):
+                        ep = qos.Episode()
+                        ep.mode = mode
+                        ep.calls = [{"t": 0.0, "cmd": cmd, "prio": 0, "max_retries": 2, "timeout": 6.0, "wfr": None}]
+                        for nn in range(1, 6):
+                            ep.tx[(cmd, nn)] = {"echo": None if nn < at else 0.02, "reply": 0.05, "dup": False, "fail": kind if nn == at else False}
+                        res = qos.run_episode(ep)
+                        chk.evaluations += 1
+                        chk.nontrivial.add(json.dumps(ep.to_json(), sort_keys=True))
+                        score_c07(chk, ep, res)
         # every foreign packet of the list while each command waits for its echo (0.01 s) / for its reply (0.1 s)
         for cmd in range(qos.N_PLAIN):
             for k in range(len(qos.FOREIGN)):
@@ -223,6 +237,22 @@ def run_prop(chk: Check, which: str) -> None:
                         chk.evaluations += 1
                         chk.nontrivial.add(json.dumps(ep.to_json(), sort_keys=True))
                         score_c09(chk, ep, res)
+    if which in ("C07", "C09"):
+        # a faked device's command whose impersonation notice fails (no echo, every transmission), then further commands in
+        # faked devices' names and in the gateway's own
+        for lost in (1, 4, 8):
+            for second in (9, 10, 0):
+                for gap in (0.01, 6.0, 12.0):
+                    ep = qos.Episode()
+                    ep.mode = None
+                    ep.alerts_lost = lost
+                    ep.calls = [{"t": 0.0, "cmd": 9, "prio": 0, "max_retries": 3, "timeout": 20.0, "wfr": None},
+                                {"t": gap, "cmd": second, "prio": 0, "max_retries": 3, "timeout": 20.0, "wfr": None},
+                                {"t": gap + 20.0, "cmd": 10, "prio": 0, "max_retries": 3, "timeout": 20.0, "wfr": None}]
+                    res = qos.run_episode(ep)
+                    chk.evaluations += 1
+                    chk.nontrivial.add(json.dumps(ep.to_json(), sort_keys=True))
+                    (score_c07 if which == "C07" else score_c09)(chk, ep, res)
     if which in ("C07", "C09"):
         # more callers than the send buffer holds (32), behind a command whose echoes are lost: the surplus is refused with a
         # protocol error, everybody is answered, the sender comes to rest
